@@ -24,7 +24,7 @@ for prop in sorted(os.listdir(root)):
         summary = re.sub(r"\s+", " ", paras[0])[:400] if paras else ""
         needs = ""
         for p in paras:
-            if re.search(r"(?i)trigger|needs|manifest", p):
+            if re.match(r"(?i)\**trigger", p) or re.search(r"(?i)trigger|needs|manifest", p):
                 needs = re.sub(r"\s+", " ", p)[:400]
                 break
         json.dump({"property": prop, "summary": summary, "needs": needs, "round": rnd, "fixture_n": int(n),
